@@ -41,3 +41,22 @@ MUTANTS = [
     lcs = lcs_list[0]""", """    subsumers = _least_common_subsumers(synset1, synset2, simulate_root)
     lcs = subsumers[0]""")]},
 ]
+
+MUTANTS += [
+    {'name': 'benign-rename-in-path', 'expect': 'silent',
+     'edits': [E(S, """        distance = float('inf')
+    else:
+        distance = len(path)
+    return 1 / (distance + 1)""", """        dist = float('inf')
+    else:
+        dist = len(path)
+    return 1 / (dist + 1)""")]},
+    {'name': 'benign-rename-in-wup', 'expect': 'silent',
+     'edits': [E(S, """    i = len(synset1.shortest_path(lcs, simulate_root=simulate_root))
+    j = len(synset2.shortest_path(lcs, simulate_root=simulate_root))
+    k = lcs.max_depth() + 1
+    return (2*k) / (i + j + 2*k)""", """    d1 = len(synset1.shortest_path(lcs, simulate_root=simulate_root))
+    d2 = len(synset2.shortest_path(lcs, simulate_root=simulate_root))
+    depth = lcs.max_depth() + 1
+    return (2*depth) / (d1 + d2 + 2*depth)""")]},
+]
